@@ -140,8 +140,15 @@ class _Isolation:
                     if live != saved:
                         live.clear()
                         live.update(saved)
-            except Exception:  # noqa: BLE001 - isolation is best effort
-                pass
+            except BaseException:  # noqa: BLE001 - isolation is best effort (a container may hold dead symbolic keys)
+                try:
+                    live.clear()
+                    if type(live) is list:
+                        live.extend(saved)
+                    else:
+                        live.update(saved)
+                except BaseException:  # noqa: BLE001
+                    pass
 
 
 def explore_with_known(body, known_fps, budget_s=120.0, per_path_timeout=30.0, max_paths=100000):
@@ -280,6 +287,8 @@ def explore(
             _analysis, exhausted = space.bubble_status(CallAnalysis(status))
         if refuted or exhausted:
             break
+    if iso is not None:
+        iso.restore()  # leave no trace of the last path behind: the next obligation of this worker snapshots afresh
     top = search_root.child.get_result()
     if refuted:
         res["status"] = "refuted"
